@@ -10,6 +10,14 @@ JOBS = {
     "C17": [
         {"cmd": "c17-engine", "race": True, "batches": {"quick": 2, "thorough": 6}, "timeout": {"quick": 900, "thorough": 3000}},
     ],
+    "C18": [
+        {"cmd": "c18-hpack", "race": False, "timeout": {"quick": 300, "thorough": 1800}, "fatal_is_violation": True},
+        {"cmd": "c18-framer", "race": False, "timeout": {"quick": 300, "thorough": 1800}, "fatal_is_violation": True},
+        {"cmd": "c18-flow", "race": True, "timeout": {"quick": 600, "thorough": 2400}},
+    ],
+    "C14": [
+        {"cmd": "c14-engine", "race": True, "batches": {"quick": 10, "thorough": 10}, "timeout": {"quick": 600, "thorough": 2400}},
+    ],
     "C19": [
         {"cmd": "c19-codec", "race": False, "batches": {"quick": 4, "thorough": 16}, "timeout": {"quick": 300, "thorough": 1500}},
         {"cmd": "c19-samples", "race": False, "batches": {"quick": 2, "thorough": 2}, "timeout": {"quick": 600, "thorough": 900}},
